@@ -149,6 +149,11 @@ def programs(tier):
             if bn == "n in l" and "0" in sn:
                 continue
             add("rsz/%s/%s" % (sn, bn), _mk_randsz(lambda s, sb=sb, bb=bb: (sb(s), bb(s))), bp, fixed=None, size_ok=sp)
+            if bn in ("it<c", "l[i]==i", "unique") and "l[0]" not in sn:
+                # size in the class block, the list statement in a dynamic constraint referenced inline: the list grows
+                # in the very call whose inline constraints range over it
+                add("rszdyn/%s/%s" % (sn, bn), _mk_randsz(lambda s, sb=sb: sb(s), dyn=lambda s, bb=bb: bb(s)), bp, fixed=None,
+                    size_ok=sp, call="dyn")
             if bn in ("sum==3", "sum<=n", "product==2", "unique", "it<c"):
                 # the list statement stated BEFORE the size constraint
                 add("rszrev/%s/%s" % (sn, bn), _mk_randsz(lambda s, sb=sb, bb=bb: (bb(s), sb(s))), bp, fixed=None, size_ok=sp)
@@ -313,7 +318,7 @@ def _mk_obj(sz, bld):
     return mk
 
 
-def _mk_randsz(bld, prefill=None):
+def _mk_randsz(bld, prefill=None, dyn=None):
     def mk():
         @vsc.randobj
         class C(object):
@@ -326,6 +331,12 @@ def _mk_randsz(bld, prefill=None):
             @vsc.constraint
             def cl(self):
                 bld(self)
+
+            # statements over the list that only a call's inline reference brings in
+            @vsc.dynamic_constraint
+            def dc(self):
+                if dyn is not None:
+                    dyn(self)
         return C
     return mk
 
